@@ -334,3 +334,197 @@ Section Step3.
     intros r c Hr Hc. apply (Hcols r c Hc).
   Qed.
 End Step3.
+
+(* ================================================================ cbca_step_2 / cbca_step_4: shared *)
+
+Definition arm_at (a : arms) (k : Z) : Z :=
+  if k =? 0 then aL a else if k =? 1 then aR a else if k =? 2 then aT a else aB a.
+
+(* an arms table as the 3-D int16 array of the code *)
+Definition arms_arr (C : arr) (nr nc : Z) (cross : Z -> Z -> arms) : Prop :=
+  ashape C = [nr; nc; 4] /\
+  forall r c k, 0 <= r < nr -> 0 <= c < nc -> 0 <= k < 4 -> adata C [r; c; k] = VInt (arm_at (cross r c) k).
+(* a 1-D int64 array holding f(cols[0]), f(cols[1]), ... *)
+Definition ints_arr (R : arr) (cols : list Z) (f : Z -> Z) : Prop :=
+  ashape R = [Z.of_nat (length cols)] /\
+  forall j, 0 <= j < Z.of_nat (length cols) -> adata R [j] = VInt (f (nth (Z.to_nat j) cols 0)).
+
+Section Cols.
+  Variable cols : list Z.
+  Hypothesis Hnd : NoDup cols.
+  Definition colz (j : Z) : Z := nth (Z.to_nat j) cols 0.
+  Definition written (i c : Z) : Prop := exists j, 0 <= j < i /\ colz j = c.
+  Let m := Z.of_nat (length cols).
+
+  Lemma written_0 : forall c, ~ written 0 c.
+  Proof. intros c (j & Hj & _). lia. Qed.
+  Lemma written_succ : forall i c, 0 <= i -> (written (i + 1) c <-> written i c \/ colz i = c).
+  Proof.
+    intros i c Hi. split.
+    - intros (j & Hj & E). destruct (Z.eq_dec j i) as [->|]; [right; auto | left; exists j; split; auto; lia].
+    - intros [(j & Hj & E) | E]; [exists j | exists i]; split; auto; lia.
+  Qed.
+  Lemma written_all : forall c, written m c <-> In c cols.
+  Proof.
+    intros c. split.
+    - intros (j & Hj & E). subst c. apply nth_In. unfold m in Hj. lia.
+    - intros H. destruct (In_nth cols c 0 H) as (n & Hn & E).
+      exists (Z.of_nat n). split; [unfold m; lia|]. unfold colz. rewrite Nat2Z.id. exact E.
+  Qed.
+  Lemma written_fresh : forall i, 0 <= i < m -> ~ written i (colz i).
+  Proof.
+    intros i Hi (j & Hj & E). unfold colz in E.
+    assert (Z.to_nat j = Z.to_nat i).
+    { apply (proj1 (NoDup_nth cols 0) Hnd); unfold m in *; try lia. }
+    lia.
+  Qed.
+  Lemma colz_in : forall i, 0 <= i < m -> In (colz i) cols.
+  Proof. intros. apply nth_In. unfold m in *. lia. Qed.
+End Cols.
+
+(* ================================================================ cbca_step_2 *)
+
+Section Step2.
+  Variables (nr nc ncR : Z) (crossL crossR : Z -> Z -> arms) (d : Q) (s1 : Z -> Z -> Q).
+  Variables (S1 CL CR RC RCR : arr) (cols : list Z).
+  Hypothesis Hnr : 0 <= nr.
+  Hypothesis Hnc : 0 <= nc.
+  Hypothesis HS1 : ashape S1 = [nr; nc + 1].
+  Hypothesis HS1d : forall r c, 0 <= r < nr -> 0 <= c < nc + 1 -> fval (adata S1 [r; c]) (s1 r c).
+  Hypothesis HCL : arms_arr CL nr nc crossL.
+  Hypothesis HCR : arms_arr CR nr ncR crossR.
+  Hypothesis HRC : ints_arr RC cols (fun c => c).
+  Hypothesis HRCR : ints_arr RCR cols (corr d).
+  Hypothesis Hnd : NoDup cols.
+  Hypothesis Hcols : forall c, In c cols -> 0 <= c < nc /\ 0 <= corr d c < ncR.
+  (* the combined arms stay inside the row (in-range condition of the two reads of step1) *)
+  Hypothesis Harms : forall r c, 0 <= r < nr -> In c cols ->
+    0 <= h_left crossL crossR d r c <= c /\ 0 <= h_right crossL crossR d r c <= nc - 1 - c.
+
+  Let m := Z.of_nat (length cols).
+  Let E2 (r c : Z) : Q :=
+    qsub (s1 r (c + h_right crossL crossR d r c)) (s1 r (wrap (nc + 1) (c - h_left crossL crossR d r c - 1))).
+  Let N2 (r c : Z) : Z := h_right crossL crossR d r c + h_left crossL crossR d r c.
+
+  Let row_ok (S SM : arr) (r : Z) (W : Z -> Prop) : Prop :=
+    forall c, 0 <= c < nc ->
+      (W c -> fval (adata S [r; c]) (E2 r c) /\ fval (adata SM [r; c]) (inject_Z (N2 r c))) /\
+      (~ W c -> adata S [r; c] = VFlt (Fin 0) /\ adata SM [r; c] = VFlt (Fin 0)).
+
+  Let I_in (r i : Z) (st : state) : Prop :=
+    exists S SM o3 o4 o5,
+      st = mkSt [Some (VInt nr); Some (VInt (nc + 1)); Some (VInt r); o3; o4; o5]
+                [Some S1; Some CL; Some CR; Some RC; Some RCR; Some S; Some SM] /\
+      ashape S = [nr; nc] /\ ashape SM = [nr; nc] /\
+      (forall r', 0 <= r' < r -> row_ok S SM r' (fun c => In c cols)) /\
+      (forall r', r < r' -> row_ok S SM r' (fun _ => False)) /\
+      row_ok S SM r (written cols i).
+  Let I_out (r : Z) (st : state) : Prop :=
+    exists S SM o2 o3 o4 o5,
+      st = mkSt [Some (VInt nr); Some (VInt (nc + 1)); o2; o3; o4; o5]
+                [Some S1; Some CL; Some CR; Some RC; Some RCR; Some S; Some SM] /\
+      ashape S = [nr; nc] /\ ashape SM = [nr; nc] /\
+      (forall r', 0 <= r' < r -> row_ok S SM r' (fun c => In c cols)) /\
+      (forall r', r <= r' -> row_ok S SM r' (fun _ => False)).
+
+  Theorem ir_step2 :
+    exists S SM, run_kernel cbca_step_2 [] [S1; CL; CR; RC; RCR] = Some [S; SM] /\
+      ashape S = [nr; nc] /\ ashape SM = [nr; nc] /\
+      forall r c, 0 <= r < nr -> 0 <= c < nc ->
+        (In c cols -> fval (adata S [r; c]) (E2 r c) /\ fval (adata SM [r; c]) (inject_Z (N2 r c))) /\
+        (~ In c cols -> adata S [r; c] = VFlt (Fin 0) /\ adata SM [r; c] = VFlt (Fin 0)).
+  Proof.
+    destruct HCL as [HCLs HCLd]. destruct HCR as [HCRs HCRd].
+    destruct HRC as [HRCs HRCd]. destruct HRCR as [HRCRs HRCRd]. fold m in HRCs, HRCd, HRCRs, HRCRd.
+    unfold run_kernel. kred. do 3 (rewrite exec_block_cons; kred; rewrite ?HS1; kred).
+    replace (nc + 1 - 1) with nc by lia.
+    replace ((0 <=? nr) && ((0 <=? nc) && true)) with true by lia.
+    rewrite exec_block_cons; kred.
+    replace (nc + 1 - 1) with nc by lia.
+    replace ((0 <=? nr) && ((0 <=? nc) && true)) with true by lia.
+    rewrite exec_block_cons, exec_for. kred. rewrite HS1. kred. rewrite py_range_up. replace (nr - 0) with nr by lia.
+    set (body := exec_block _). knorm.
+    set (Z0 := mkArr [nr; nc] (fun _ => VFlt (Fin 0))).
+    destruct (loop_zrange' body 2%nat I_out 0 nr
+               (mkSt [Some (VInt nr); Some (VInt (nc + 1)); None; None; None; None]
+                     [Some S1; Some CL; Some CR; Some RC; Some RCR; Some Z0; Some Z0])) as (st' & E & I'); auto.
+    { exists Z0, Z0, None, None, None, None.
+      split; [reflexivity | split; [reflexivity | split; [reflexivity | split]]].
+      - intros; lia.
+      - intros r' _ c _. split; [tauto | intros _; split; reflexivity]. }
+    { (* one image row *)
+      intros r st0 Hr (S & SM & o2 & o3 & o4 & o5 & -> & HS & HSM & Hdone & Hzero).
+      unfold body. kred. rewrite exec_block_cons, exec_for. kred. rewrite HRCs. kred. rewrite py_range_up.
+      replace (m - 0) with m by lia. set (body2 := exec_block _). knorm.
+      destruct (loop_zrange' body2 3%nat (I_in r) 0 m
+                 (mkSt [Some (VInt nr); Some (VInt (nc + 1)); Some (VInt r); o3; o4; o5]
+                       [Some S1; Some CL; Some CR; Some RC; Some RCR; Some S; Some SM])) as (st2 & E2' & I2); auto.
+      { unfold m. lia. }
+      { exists S, SM, o3, o4, o5.
+        split; [reflexivity | split; [assumption | split; [assumption | split; [assumption | split]]]].
+        - intros r' Hr'. apply Hzero. lia.
+        - intros c Hc. destruct (Hzero r (Z.le_refl r) c Hc) as [_ Hz]. split.
+          + intros W. exfalso. eapply written_0; eauto.
+          + intros _. apply Hz. tauto. }
+      { (* one entry of range_col *)
+        intros i st1 Hi (Sa & SMa & o3' & o4' & o5' & -> & HSa & HSMa & Hdone1 & Hzero1 & Hrow).
+        assert (Hin : In (colz cols i) cols) by (apply colz_in; fold m; lia).
+        set (c := colz cols i) in *.
+        destruct (Hcols c Hin) as [Hc Hcc]. destruct (Harms r c) as [Hl Hrr]; [lia | exact Hin |].
+        unfold body2. kred.
+        do 2 (rewrite exec_block_cons; kred;
+              rewrite (aread1_ok RC m), (aread1_ok RCR m) by (auto; lia); rewrite HRCd, HRCRd by lia; fold (colz cols i); fold c; kred;
+              rewrite (aread3_ok CL nr nc 4), (aread3_ok CR nr ncR 4) by (auto; lia);
+              rewrite HCLd, HCRd by lia; kred).
+        unfold arm_at. cbn [Z.eqb Pos.eqb].
+        fold (h_right crossL crossR d r c). fold (h_left crossL crossR d r c).
+        set (hr := h_right crossL crossR d r c) in *. set (hl := h_left crossL crossR d r c) in *.
+        rewrite exec_block_cons. kred.
+        rewrite (aread1_ok RC m) by (auto; lia). rewrite HRCd by lia. fold (colz cols i). fold c. kred.
+        rewrite (aread2_ok S1 nr (nc + 1)) by (auto; lia).
+        rewrite (aread2_wrap1 S1 nr (nc + 1)) by (auto; lia).
+        destruct (HS1d r (c + hr)) as (q1 & Eq1 & Hq1); [lia | lia |].
+        destruct (HS1d r (wrap (nc + 1) (c - hl - 1))) as (q2 & Eq2 & Hq2); [lia | unfold wrap; destruct (c - hl - 1 <? 0) eqn:?; lia |].
+        rewrite Eq1, Eq2. kred.
+        rewrite (awrite2_ok Sa nr nc) by (auto; lia). kred.
+        rewrite exec_block_cons. kred.
+        rewrite (aread1_ok RC m) by (auto; lia). rewrite HRCd by lia. fold (colz cols i). fold c. kred.
+        rewrite (aread2_ok SMa nr nc) by (auto; lia).
+        destruct (Hrow c Hc) as [_ Hfresh].
+        destruct Hfresh as [_ HSMz]; [apply written_fresh; auto; fold m; lia|].
+        rewrite HSMz. kred. rewrite (awrite2_ok SMa nr nc) by (auto; lia). kred.
+        rewrite exec_block_nil. eexists. split; [reflexivity|].
+        eexists _, _, (Some (VInt i)), (Some (VInt hr)), (Some (VInt hl)).
+        split; [reflexivity | split; [assumption | split; [assumption | split; [| split]]]].
+        - intros r' Hr' c' Hc'. rewrite !aupd2_other by (intro X; inversion X; lia). apply Hdone1; auto.
+        - intros r' Hr' c' Hc'. rewrite !aupd2_other by (intro X; inversion X; lia). apply Hzero1; auto.
+        - intros c' Hc'. destruct (Z.eq_dec c' c) as [->|Hne].
+          + rewrite !aupd2_same. split.
+            * intros _. split.
+              -- exists (Qred (q1 - q2)). split; [reflexivity|]. unfold E2. fold hr. fold hl.
+                 rewrite Qred_correct, qsub_ok, Hq1, Hq2. reflexivity.
+              -- eexists. split; [reflexivity|]. unfold N2. fold hr. fold hl. cbn [fadd].
+                 rewrite Qred_correct. ring.
+            * intros W. exfalso. apply W. apply written_succ; [lia|]. right. reflexivity.
+          + rewrite !aupd2_other by (intro X; inversion X; lia).
+            destruct (Hrow c' Hc') as [H1 H2]. split.
+            * intros W. apply written_succ in W; [|lia]. destruct W as [W | W]; [auto | exfalso; apply Hne; symmetry; exact W].
+            * intros W. apply H2. intro W'. apply W. apply written_succ; [lia|]. left. exact W'. }
+      rewrite E2'. replace (0 + m) with m in I2 by lia.
+      destruct I2 as (S2 & SM2 & o3'' & o4'' & o5'' & -> & HS2 & HSM2 & Hdone2 & Hzero2 & Hrow2).
+      rewrite exec_block_nil. eexists. split; [reflexivity|].
+      exists S2, SM2, (Some (VInt r)), o3'', o4'', o5''.
+      split; [reflexivity | split; [assumption | split; [assumption | split]]].
+      - intros r' Hr'. destruct (Z.eq_dec r' r) as [->|].
+        + intros c Hc. destruct (Hrow2 c Hc) as [H1 H2]. split.
+          * intros Hin. apply H1. apply written_all. exact Hin.
+          * intros Hnin. apply H2. intro W. apply Hnin. apply written_all in W. exact W.
+        + apply Hdone2. lia.
+      - intros r' Hr'. apply Hzero2. lia. }
+    rewrite E. replace (0 + nr) with nr in I' by lia.
+    destruct I' as (S & SM & o2 & o3 & o4 & o5 & -> & HS & HSM & Hdone & _).
+    rewrite exec_block_nil. kred. exists S, SM.
+    split; [reflexivity | split; [assumption | split; [assumption|]]].
+    intros r c Hr Hc. apply (Hdone r); auto.
+  Qed.
+End Step2.
